@@ -1613,6 +1613,11 @@ func (g Gateway) SubscribeToEvents(in *hydrapb.SubscribeToEventsRequest, eventSe
 	// Get the server context
 	hydraInterface := g.ZeusInterface.GetHydra()
 
+	// The callback runs on the goroutine of whichever writer changed a treasure, so writers of
+	// different keys can reach it at the same time; gRPC does not allow concurrent SendMsg
+	// calls on one stream, hence the sends of this subscription are serialised.
+	var sendMu sync.Mutex
+
 	eventCallbackFunction := func(event *swamp.Event) {
 
 		if event == nil {
@@ -1664,6 +1669,8 @@ func (g Gateway) SubscribeToEvents(in *hydrapb.SubscribeToEventsRequest, eventSe
 		}
 
 		// send the message to the client
+		sendMu.Lock()
+		defer sendMu.Unlock()
 		if sendErr := eventServer.SendMsg(&hydrapb.SubscribeToEventsResponse{
 			SwampName:       eventSwampName,
 			Treasure:        convertedTreasure,
